@@ -201,12 +201,30 @@ def run(inst, claims_fn, witness_fn=None, engine=None, timeout_ms=10000, split_d
                 globals()['CURRENT_ORDER'] = None
             return dict(mp=mp, mt=mt, path=path, results=res, cfg=cfg, ops=ops, opts=opts, g=g)
 
+    unrealised = []
+
     def confirm(eng, model, v, cname):
+        """1. replay on a table map holding the solver's distances (the matcher must really misbehave on them);
+        2. the distances must be realisable: search planar coordinates on which the violation persists, with the
+           repository's own kernels (symx/realise.py).  Only a realised counterexample is reported."""
+        from . import realise
+        from .common import seed
         table = ModelTable(model)
         thr = threshold_values(model, cfg)
         if isinstance(v, dict) and any(v.get('orders', [])):
             thr['__orders__'] = [{k: list(p) for k, p in rec.items()} for rec in v['orders']]
-        return confirm_on_table(table, thr)
+        r = confirm_on_table(table, thr)
+        if r is None:
+            return None
+        names = realise.base_names(g, None, ops)
+        rr = realise.realise(confirm_on_table, names, r.get('table', {}), thr, seed=seed(), budget=opts.get('realise_budget', 120))
+        if rr is not None:
+            rr['desc'] = rr['desc'] + f" [planar coordinates {rr['coords']}]"
+            return rr
+        if len(unrealised) < 5:
+            unrealised.append(dict(claim=cname, desc="violated on the solver's distance table (abstract map) but on none of the planar embeddings tried: "
+                                                     + r['desc'][:300], table={k: round(x, 6) for k, x in list(r.get('table', {}).items())[:12]}))
+        return None
 
     def confirm_on_table(table, thr):
         payload = dict(graph=g, cfg=kw, ops=[list(o) for o in ops], opts=opts, thresholds=thr, kind='gabs')
@@ -244,6 +262,9 @@ def run(inst, claims_fn, witness_fn=None, engine=None, timeout_ms=10000, split_d
         return dict(name=iname, prefixes=runner.split(mk, scenario, split_depth or 4), inst=inst[:6])
     if mode == 'replay':
         tab, thr = inst[7]
+        if isinstance(tab, dict) and '__coords__' in tab:
+            from .realise import GeoTable
+            tab = GeoTable({k: tuple(c) for k, c in tab['__coords__'].items()})
         r = confirm_on_table(tab, thr)
         shims.uninstall()
         return r
@@ -251,6 +272,10 @@ def run(inst, claims_fn, witness_fn=None, engine=None, timeout_ms=10000, split_d
                          exc_is_violation=exc_is_violation,
                          sample_fmt=lambda v: [(r['op'], repr(r['states']), r['idx']) for r in v['results']])
     shims.uninstall()
+    if unrealised:
+        # keep one representative per instance; the generic "did not reproduce" entries of the same paths are dropped
+        out['candidates'] = [c for c in out['candidates'] if 'did not reproduce' not in c.get('desc', '')] + unrealised[:2]
+        out['tags']['abstract_table_counterexample_not_realised'] = len(unrealised)
     return out
 
 
@@ -301,7 +326,8 @@ def replay(path, claims_fn, exc_is_violation=True):
     with open(path) as f:
         d = json.load(f)
     ops = [tuple(o) for o in d['ops']]
-    inst = ('replay', d['graph'], d['cfg'], ops, d.get('opts', {}), None, 'replay', (d['table'], d['thresholds']))
+    tab = {'__coords__': d['coords']} if d.get('coords') else d['table']
+    inst = ('replay', d['graph'], d['cfg'], ops, d.get('opts', {}), None, 'replay', (tab, d['thresholds']))
     r = run(inst, claims_fn, exc_is_violation=exc_is_violation)
     print(r['desc'] if r else "consistent: all claims hold on the concrete replay")
     return 1 if r else 0
